@@ -1230,7 +1230,13 @@ func c13Analyzer(c *Ctx, sx *symx.Ctx) {
 			}
 			cst, ok := mu.Value.(*ssa.Const)
 			if !ok {
-				return // copied values (range over the constant tables) are covered by their own literals
+				// copied values (range over the constant tables, or handed to a
+				// merge helper) are covered by their own literals; anything
+				// COMPUTED is not known to stay at or above 1
+				if why := c13ComputedBoost(c, mu.Value, 0); why != "" {
+					badConst = why + " at " + c.P.Pos(mu.Pos())
+				}
+				return
 			}
 			nConst++
 			fv, _ := constant.Float64Val(constant.ToFloat(cst.Value))
@@ -1383,4 +1389,81 @@ func firstOccurrenceIdiom(fn *ssa.Function) (bool, string) {
 		}
 	}
 	return good, why
+}
+
+// c13ComputedBoost: "" when v is a constant >= 1, a value copied out of a map
+// (the constant tables), or a parameter to which every shipped call site
+// passes such a value; otherwise a description of the computation found.
+func c13ComputedBoost(c *Ctx, v ssa.Value, d int) string {
+	if d > 5 {
+		return "a boost whose origin is too deep to follow"
+	}
+	switch x := v.(type) {
+	case *ssa.Const:
+		if k, ok := ssau.ConstFloat(x); ok && k >= 1 && !math.IsInf(k, 0) {
+			return ""
+		}
+		return "a boost constant below 1"
+	case *ssa.Extract:
+		if nx, ok := x.Tuple.(*ssa.Next); ok && !nx.IsString {
+			return "" // value of a map being ranged over
+		}
+		if _, ok := x.Tuple.(*ssa.Lookup); ok {
+			return ""
+		}
+	case *ssa.Lookup:
+		return ""
+	case *ssa.Phi:
+		for _, e := range x.Edges {
+			if w := c13ComputedBoost(c, e, d+1); w != "" {
+				return w
+			}
+		}
+		return ""
+	case *ssa.UnOp:
+		if x.Op == token.MUL {
+			return "" // a stored value read back
+		}
+	case *ssa.Parameter:
+		fn := x.Parent()
+		idx := -1
+		for i, p := range fn.Params {
+			if p == x {
+				idx = i
+			}
+		}
+		node := c.P.CallGraph().Nodes[fn]
+		if node == nil || idx < 0 {
+			return ""
+		}
+		for _, e := range node.In {
+			if e.Site == nil || !isShipped(c, e.Caller.Func) {
+				continue
+			}
+			args := e.Site.Common().Args
+			if e.Site.Common().IsInvoke() || idx >= len(args) {
+				continue
+			}
+			if w := c13ComputedBoost(c, args[idx], d+1); w != "" {
+				return w
+			}
+		}
+		return ""
+	case *ssa.BinOp:
+		if x.Op == token.MUL && c13ComputedBoost(c, x.X, d+1) == "" && c13ComputedBoost(c, x.Y, d+1) == "" {
+			return "" // a product of factors that are each at least 1
+		}
+		return "a boost computed as " + x.X.Name() + " " + x.Op.String() + " " + x.Y.Name() + " (nothing shows the result stays >= 1)"
+	case *ssa.Call:
+		n := ssau.CallName(x)
+		if n == "builtin.max" || n == "math.Max" {
+			for _, a := range x.Common().Args {
+				if c13ComputedBoost(c, a, d+1) == "" {
+					return ""
+				}
+			}
+		}
+		return "a boost computed by " + n
+	}
+	return ""
 }
